@@ -357,7 +357,7 @@ def run(name, script, **cfg) -> Run:
     else:
         call, mods = build(name, env, cfg)
         box = cfg["_envbox"]
-    rb = None if cfg.get("own_buffer") else (cfg.get("replay_buffer") or new_buffer(name, cfg))  # own_buffer: the routine creates its buffer
+    rb = None if cfg.get("own_buffer") else (cfg["replay_buffer"] if cfg.get("replay_buffer") is not None else new_buffer(name, cfg))  # own_buffer: the routine creates its buffer
     r = Run(name=name, script=script, cfg=cfg, env=env, mods=mods, rb=rb, snaps=[], result=None, error=None, logger=None, prebuilt=(call, mods, box), acting=[])
     if cfg.get("record_acting") and cfg.get("prebuilt") is None:
         if name == "pets":
